@@ -34,6 +34,7 @@ type req struct {
 	Capture    string `json:"capture"`
 	GoMaxProcs int    `json:"gomaxprocs"`
 	Sched      string `json:"sched"`
+	Debug      bool   `json:"debug"`
 }
 type rep struct {
 	Exit  int    `json:"exit"`
@@ -103,6 +104,7 @@ func run(r *req) (reply rep) {
 	}
 	res := compiler.Compile(&compiler.Options{
 		EntryFile:        entry,
+		Debug:            r.Debug,
 		LogFormat:        compiler.ANSI,
 		OutputExecutable: r.Out,
 		KeepGenFiles:     r.KeepGen,
